@@ -279,6 +279,28 @@ fn catalogue(w: &WUsk, other: &WUsk, rng: &mut Rng) -> Vec<(String, Vec<u8>)> {
         m.chains[0].1.remove(0);
         push("reframe-first-right-into-extra-marker", &m);
     }
+    // ---- keys without any right -------------------------------------------------------------
+    {
+        let mut m = w.clone();
+        m.chains.clear();
+        push("remove-all-chains", &m);
+        let mut m = w.clone();
+        m.chains.clear();
+        m.sig = None;
+        push("remove-all-chains-and-signature", &m);
+        let mut m = w.clone();
+        m.chains.clear();
+        m.id = other.id.clone();
+        push("remove-all-chains-id-of-other-key", &m);
+        let mut m = w.clone();
+        for c in &mut m.chains {
+            c.1.clear();
+        }
+        push("empty-every-chain", &m);
+        let mut m = w.clone();
+        m.chains.truncate(1);
+        push("keep-only-first-chain", &m);
+    }
     // ---- id, signature, splices -------------------------------------------------------------
     for (mi, mk) in w.id.iter().enumerate() {
         for _ in 0..12 {
